@@ -162,7 +162,10 @@ def recording():
         rec = {'pts': np.array(pts, dtype=float).copy(), 'value': float(out[0])}
         if len(t.lowess) == n0 + 1:
             lw = t.lowess[-1]
-            rec['perm'] = _match_perm(rec['pts'], lw['ys'], lw['xs'])
+            # the permutation the code applied: the same deterministic call on the same array
+            rec['perm'] = [int(i) for i in rec['pts'][:, 0].argsort()]
+            if not np.array_equal(rec['pts'][rec['perm'], 1], lw['ys']):
+                rec['perm'] = _match_perm(rec['pts'], lw['ys'], lw['xs'])
             rec['smooth'] = lw['out'][:, 1].copy()
             rec['sorted_x'] = lw['xs']
         else:
